@@ -24,6 +24,7 @@
   beyond the order of the reads.
 -/
 import LzProofs.GenOSAPLemmas
+import LzProofs.GenCallByName
 import LzProofs.GenSuffixPropsSeg
 import LzProofs.IdxOsap
 
@@ -31,7 +32,7 @@ set_option linter.unusedSimpArgs false
 set_option linter.unusedVariables false
 
 namespace LZ.GenOSAP
-open LZ LZ.Gen LZ.GenBuf LZ.GenHash LZ.GenSuffix LZ.Idx
+open LZ LZ.Gen LZ.GenBuf LZ.GenHash LZ.GenSuffix LZ.Idx LZ.GenDec
 
 /-- the Go type `opt` local to `shortestPath` -/
 abbrev GOpt := Gen.optSuffixArrayParser_shortestPath_opt
@@ -106,7 +107,8 @@ theorem loop4_eq (grow : Nat → Nat → Nat) (max : UInt32) (ci : UInt64) (s : 
     ∀ (cnt fuel : Nat) (d : GSlice GOpt) (m : UInt32) (D' : Array Opt), GWF d → CB d →
       cnt = max.toNat + 1 - m.toNat → cnt + 1 ≤ fuel →
       relaxLensChk mm inn ci.toNat o.toNat cnt m.toNat (tabAbs d) = some D' →
-      ∃ d' m', Gen.optSuffixArrayParser_shortestPath_loop_4 grow max ci s o i fuel d m = Res.ok (d', m') ∧
+      ∃ d' m', (ghead% Gen.optSuffixArrayParser_shortestPath_loop_4 [grow := grow, max := max, ci := ci, s := s, o := o, i := i])
+          fuel d m = Res.ok (d', m') ∧
         tabAbs d' = D' ∧ GWF d' ∧ d'.len = d.len ∧ CB d' := by
   intro cnt
   induction cnt with
@@ -169,7 +171,8 @@ theorem loop3_eq (grow : Nat → Nat → Nat) (q : GSlice Gen.edge) (hq : GWF q)
       k + maxLen.toNat + 2 ≤ fuel →
       relaxEdgesChk s.OSAPConfig.MinMatchLen.toNat inn ci.toNat maxLen.toNat ((q.data.take k).map edgeAbs).reverse
         (tabAbs d) = some D' →
-      ∃ d' k', Gen.optSuffixArrayParser_shortestPath_loop_3 grow q maxLen s ci i fuel d k1 = Res.ok (d', k') ∧
+      ∃ d' k', (ghead% Gen.optSuffixArrayParser_shortestPath_loop_3 [grow := grow, q := q, maxLen := maxLen, s := s, ci := ci, i := i])
+          fuel d k1 = Res.ok (d', k') ∧
         tabAbs d' = D' ∧ GWF d' ∧ d'.len = d.len ∧ CB d' := by
   intro k
   induction k with
@@ -270,7 +273,8 @@ theorem loop2_eq (grow : Nat → Nat → Nat) (fuel : Nat) (edges : GSlice (GSli
       GWF ((edges.arr[i]?).getD GSlice.nil) ∧ nn + ((edges.arr[i]?).getD GSlice.nil).len + 2 ≤ fuel) :
     ∀ (rest i : Nat) (d : GSlice GOpt) (D' : Array Opt), i + rest = edges.len → GWF d → CB d →
       dpLoopChk s.OSAPConfig.MinMatchLen.toNat nn E k0 rest i (tabAbs d) = some D' →
-      ∃ d', Gen.optSuffixArrayParser_shortestPath_loop_2 grow fuel edges lit n k s rest (i : Int) d = Res.ok d' ∧
+      ∃ d', (ghead% Gen.optSuffixArrayParser_shortestPath_loop_2 [grow := grow, fuel := fuel, edges := edges, lit := lit, n := n, k := k, s := s])
+          rest (i : Int) d = Res.ok d' ∧
         tabAbs d' = D' ∧ GWF d' ∧ d'.len = d.len ∧ CB d' := by
   intro rest
   induction rest with
@@ -359,7 +363,7 @@ def goD0 (j : Nat) : GOpt := { m := 1, o := 0, c := Gen.XZCost (UInt32.ofInt (j 
     (except entry 0) are overwritten, the others are kept -/
 theorem loop1_eq (grow : Nat → Nat → Nat) (fuel : Nat) (s : Gen.optSuffixArrayParser) (hcost : s.cost = 1) :
     ∀ (rest i : Nat) (d : GSlice GOpt), i + rest = d.len → GWF d →
-      ∃ d', Gen.optSuffixArrayParser_shortestPath_loop_1 grow fuel s rest (i : Int) d = Res.ok d' ∧
+      ∃ d', (ghead% Gen.optSuffixArrayParser_shortestPath_loop_1 [grow := grow, fuel := fuel, s := s]) rest (i : Int) d = Res.ok d' ∧
         GWF d' ∧ d'.len = d.len ∧
         (∀ j, (j < i ∨ j = 0) → d'.arr[j]? = d.arr[j]?) ∧
         (∀ j, i ≤ j → j < d.len → j ≠ 0 → d'.arr[j]? = some (goD0 j)) := by
@@ -376,13 +380,14 @@ theorem loop1_eq (grow : Nat → Nat → Nat) (fuel : Nat) (s : Gen.optSuffixArr
     unfold Gen.optSuffixArrayParser_shortestPath_loop_1
     by_cases hi0 : i = 0
     · subst hi0
-      simp only [Int.natCast_zero, if_true]
+      -- `if i == 0 { continue }` or `if i != 0 { … }`: either spelling, either arm order
+      simp only [Int.natCast_zero, if_true, ne_eq, not_true_eq_false, if_false, bind_ok]
       obtain ⟨d', hgo, r1, r2, r3, r4⟩ := ih 1 d (by omega) hw
       refine ⟨d', hgo, r1, r2, fun j hj => r3 j (by omega), ?_⟩
       intro j h1 h2 h3
       exact r4 j (by omega) h2 h3
     · have hne : ¬ (i : Int) = 0 := by omega
-      simp only [hne, if_false, cost_ok _ hcost, bind_ok, gset_ok d (i : Int) i rfl hilt]
+      simp only [hne, if_false, ne_eq, not_false_eq_true, if_true, cost_ok _ hcost, bind_ok, gset_ok d (i : Int) i rfl hilt]
       rw [hcast]
       obtain ⟨d', hgo, r1, r2, r3, r4⟩ := ih (i + 1) { d with arr := d.arr.set i (goD0 i) } (by show i + 1 + rest = d.len; omega)
         (gset_wf hw i _)
@@ -450,7 +455,7 @@ theorem loop5_eq (grow : Nat → Nat → Nat) (d : GSlice GOpt) (hw : GWF d) (P0
     ∀ (mf gf : Nat) (p : GSlice Gen.edge) (i : UInt32) (acc path : List Edge), mf + 1 ≤ gf → GWF p →
       p.data.map edgeAbs = P0 ++ acc.reverse →
       backtrackChk (tabAbs d) mf i.toNat acc = some path →
-      ∃ p' i', Gen.optSuffixArrayParser_shortestPath_loop_5 grow d gf p i = Res.ok (p', i') ∧
+      ∃ p' i', (ghead% Gen.optSuffixArrayParser_shortestPath_loop_5 [grow := grow, d := d]) gf p i = Res.ok (p', i') ∧
         p'.data.map edgeAbs = P0 ++ path.reverse ∧ GWF p' := by
   intro mf
   induction mf with
